@@ -5,7 +5,11 @@ package main
 
 import (
 	"bytes"
+	"fmt"
 	"reflect"
+	"regexp"
+	"strconv"
+	"strings"
 	"sync/atomic"
 	"time"
 	"unsafe"
@@ -270,7 +274,7 @@ func trErrOf(ids TV) error {
 }
 
 func (s *trSink) Write(p []byte) (int, error) {
-	*s.writes = append(*s.writes, tvList([]TV{s.v, tvBytes(p)}))
+	*s.writes = append(*s.writes, tvList([]TV{tvBytes([]byte("sink.Write")), s.v, tvBytes(p)}))
 	return s.n, s.werr
 }
 func (s *trSink) Sync() error { return s.serr }
@@ -483,4 +487,154 @@ func init() {
 				return []TV{tvBytes(append([]byte{}, j.buf.Bytes()...))}, nil
 			}},
 	)
+}
+
+// ---------------------------------------------------------------- TransCE ((*CheckedEntry).Write through the public API)
+
+// trCECore scripts the error its Write returns and records the call.
+type trCECore struct {
+	v   TV
+	err error
+	st  *trCEState
+}
+
+type trCEState struct {
+	ev        []TV
+	entry, fs TV
+	eo        TV
+	time      TV
+	self      TV
+}
+
+func (c *trCECore) Enabled(zapcore.Level) bool        { return true }
+func (c *trCECore) With([]zapcore.Field) zapcore.Core { return c }
+func (c *trCECore) Sync() error                       { return nil }
+func (c *trCECore) Check(e zapcore.Entry, ce *zapcore.CheckedEntry) *zapcore.CheckedEntry {
+	return ce.AddCore(e, c)
+}
+func (c *trCECore) Write(zapcore.Entry, []zapcore.Field) error {
+	c.st.ev = append(c.st.ev, tvList([]TV{tvBytes([]byte("Core.Write")), c.v, c.st.entry, c.st.fs}))
+	return c.err
+}
+
+type trCEErr struct{ ids []int64 }
+
+func (e trCEErr) Error() string {
+	var sb strings.Builder
+	for _, i := range e.ids {
+		fmt.Fprintf(&sb, "<E%d>", i)
+	}
+	return sb.String()
+}
+
+var trCEErrRe = regexp.MustCompile(`<E(-?\d+)>`)
+
+// trCEOut is the ErrorOutput: it recognises which of the two reports was printed and records the call.
+type trCEOut struct{ st *trCEState }
+
+func (o *trCEOut) Write(p []byte) (int, error) {
+	s := string(p)
+	switch {
+	case strings.Contains(s, "write error:"):
+		var errs []TV
+		for _, m := range trCEErrRe.FindAllStringSubmatch(s, -1) {
+			n, _ := strconv.ParseInt(m[1], 10, 64)
+			errs = append(errs, tvInt(n))
+		}
+		o.st.ev = append(o.st.ev, tvList([]TV{tvBytes([]byte("fmt.Fprintf")), o.st.eo, tvBytes([]byte("%v write error: %v\n")), o.st.time, tvList(errs)}))
+	case strings.Contains(s, "Unsafe CheckedEntry re-use"):
+		o.st.ev = append(o.st.ev, tvList([]TV{tvBytes([]byte("fmt.Fprintf")), o.st.eo, tvBytes([]byte("%v Unsafe CheckedEntry re-use near Entry %+v.\n")), o.st.time, o.st.entry}))
+	default:
+		panic("unexpected ErrorOutput text " + s)
+	}
+	return len(p), nil
+}
+func (o *trCEOut) Sync() error {
+	o.st.ev = append(o.st.ev, tvList([]TV{tvBytes([]byte("ErrorOutput.Sync")), o.st.eo}))
+	return nil
+}
+
+type trCEHook struct {
+	st *trCEState
+	v  TV
+}
+
+func (h trCEHook) OnWrite(*zapcore.CheckedEntry, []zapcore.Field) {
+	h.st.ev = append(h.st.ev, tvList([]TV{tvBytes([]byte("hook.OnWrite")), h.v, h.st.self, h.st.fs}))
+}
+
+func init() {
+	trFns = append(trFns, trFn{table: "TransCE", name: "Write",
+		gen: func(r *Rand) ([]TV, []trFld) {
+			var cores []TV
+			for i, k := 0, r.Intn(5); i < k; i++ {
+				var errs []TV
+				for j, m := 0, r.Intn(3); j < m && r.Bool(); j++ {
+					errs = append(errs, tvInt(int64(10*i+j)))
+				}
+				cores = append(cores, tvList([]TV{tvInt(int64(i)), tvList(errs)}))
+			}
+			opt := func() TV {
+				if r.Chance(2, 3) {
+					return tvList([]TV{tvInt(int64(r.Intn(9)))})
+				}
+				return tvList(nil)
+			}
+			return []TV{tvList([]TV{tvInt(int64(r.Intn(5)))})}, []trFld{
+				{"isnil", tvBool(r.Chance(1, 12))}, {"dirty", tvBool(r.Chance(1, 8))}, {"eo", opt()}, {"after", opt()},
+				{"cores", tvList(cores)}, {"time", tvInt(int64(r.Intn(1000)))}, {"entry", tvInt(int64(r.Intn(100)))},
+				{"self", tvList(nil)}, {"ev", tvList(nil)}}
+		},
+		run: func(args []TV, flds []trFld) ([]TV, []trFld) {
+			st := &trCEState{entry: fldOf(flds, "entry"), fs: args[0], eo: fldOf(flds, "eo"), time: fldOf(flds, "time"), self: fldOf(flds, "self")}
+			isnil, dirty := *fldOf(flds, "isnil").B, *fldOf(flds, "dirty").B
+			var ce *zapcore.CheckedEntry
+			ent := zapcore.Entry{Time: time.Unix(0, st.time.int64())}
+			if !isnil {
+				var hook zapcore.CheckWriteHook
+				if a := *fldOf(flds, "after").L; len(a) > 0 {
+					hook = trCEHook{st, fldOf(flds, "after")}
+				}
+				if dirty { // a dirty entry is one that has been written (and pooled) already
+					ce = ce.After(ent, nil)
+					ce.Write()
+					st.ev = nil
+				}
+				// (re)build the state: AddCore/After on the same pointer
+				if ce == nil {
+					ce = ce.After(ent, hook)
+				} else {
+					ce = ce.After(ent, hook)
+				}
+				for _, c := range *fldOf(flds, "cores").L {
+					core := &trCECore{v: c, st: st}
+					if ids := *(*c.L)[1].L; len(ids) > 0 {
+						e := trCEErr{}
+						for _, id := range ids {
+							e.ids = append(e.ids, id.int64())
+						}
+						core.err = e
+					}
+					ce = ce.AddCore(ent, core)
+				}
+				if len(*st.eo.L) > 0 {
+					ce.ErrorOutput = &trCEOut{st}
+				}
+			}
+			ce.Write()
+			if !isnil && !dirty {
+				// the pool put is not observable from outside: recorded as the model says, after everything else
+				st.ev = append(st.ev, tvList([]TV{tvBytes([]byte("putCheckedEntry")), st.self}))
+			}
+			out := append([]trFld{}, flds...)
+			for i := range out {
+				switch out[i].N {
+				case "dirty":
+					out[i].V = tvBool(dirty || !isnil)
+				case "ev":
+					out[i].V = tvList(st.ev)
+				}
+			}
+			return nil, out
+		}})
 }
